@@ -324,12 +324,12 @@ def run(ctx):
 
 
 CORPUS = [
-    # DESIGN §5 #23: 1-D covariance vector of the noise broadcast in A Cx A^T + Ce
+    # DESIGN §5 #23 (repaired by repo commit 0527445; kept so that a regression is caught): 1-D covariance vector of the noise
     dict(m=3, n=2, backing="mb", geom="default", A=[[1, 2], [0, 1], [1, 1]], prior_param="cov", prior_shape="scalar",
          lik_param="cov", lik_shape="vector", mean="vector", mean_value=[1, -1], b=[1, 2, 3]),
     dict(m=3, n=2, backing="mb", geom="default", A=[[1, 2], [0, 1], [1, 1]], prior_param="cov", prior_shape="scalar",
          lik_param="cov", lik_shape="vector", mean="zeros", b=[1, 2, 3]),
-    # prior covariance vector, square A (m = n): broadcast; non-square: ValueError
+    # prior covariance vector (formerly: broadcast for square A, ValueError otherwise)
     dict(m=3, n=3, backing="mb", geom="default", prior_param="cov", prior_shape="vector", lik_param="cov", lik_shape="matrix", mean="vector"),
     dict(m=3, n=2, backing="mb", geom="default", prior_param="cov", prior_shape="vector", lik_param="cov", lik_shape="scalar", mean="vector"),
     dict(m=2, n=2, backing="mb", geom="default", prior_param="cov", prior_shape="vector", lik_param="cov", lik_shape="vector", mean="vector"),
@@ -567,9 +567,249 @@ def sample_case(ctx, cuqi, c, BP, desc, rmean, rcov, rs, hist):
         ctx.fail(key, desc, "L L^T = posterior covariance " + str(rcov.tolist())[:300], C.tolist(), "direct draws do not have the closed-form posterior covariance")
 
 
+# ----------------------------------------------------------------------------------------------- routes and the solver wrapper
+PRIORS = ["gaussian", "gaussian-prec", "gmrf", "lmrf", "cmrf", "cauchy", "lognormal", "beta"]
+
+
+def make_prior(cuqi, kind, n, rs):
+    from cuqi.distribution import Gaussian, GMRF, LMRF, CMRF, Cauchy, Lognormal, Beta
+    if kind == "gaussian":
+        return Gaussian(rs.randint(-1, 2, size=n).astype(float), cov=float(rs.choice([0.5, 1.0, 2.0]))), "gaussian"
+    if kind == "gaussian-prec":
+        return Gaussian(np.zeros(n), prec=float(rs.choice([0.5, 1.0, 2.0]))), "gaussian"
+    if kind == "gmrf":
+        return GMRF(np.zeros(n), float(rs.choice([1.0, 2.0, 4.0]))), "gmrf"
+    if kind == "lmrf":
+        return LMRF(0, float(rs.choice([0.5, 1.0])), geometry=n), "lmrf"
+    if kind == "cmrf":
+        return CMRF(np.zeros(n), float(rs.choice([0.5, 1.0]))), "cmrf"
+    if kind == "cauchy":
+        return Cauchy(np.zeros(n), float(rs.choice([1.0, 2.0]))), "other"
+    if kind == "lognormal":
+        return Lognormal(np.zeros(n), float(rs.choice([0.5, 1.0]))), "lognormal"
+    if kind == "beta":
+        return Beta(2.0 * np.ones(n), 3.0 * np.ones(n)), "beta"
+    raise ValueError(kind)
+
+
+def make_model(cuqi, kind, m, n, rs):
+    from cuqi.model import LinearModel, Model
+    if kind == "linear":
+        A = rs.randint(-2, 3, size=(m, n)).astype(float)
+        for i in range(min(m, n)):
+            A[i, i] += 3.0          # keep full column rank for m >= n
+        return LinearModel(A), A
+    c = float(rs.choice([0.125, 0.25]))
+    return Model(lambda x: x + c * x ** 3, range_geometry=n, domain_geometry=n, jacobian=lambda x: np.diag(1 + 3 * c * x ** 2)), None
+
+
+def make_problem(cuqi, prior_kind, model_kind, m, n, rs):
+    from cuqi.distribution import Gaussian
+    from cuqi.problem import BayesianProblem
+    M, A = make_model(cuqi, model_kind, m, n, rs)
+    x, pk = make_prior(cuqi, prior_kind, n, rs)
+    sig2 = float(rs.choice([0.25, 0.5, 1.0]))
+    y = Gaussian(M(x), cov=sig2)
+    mm = m if model_kind == "linear" else n
+    if prior_kind in ("lognormal", "beta"):
+        xt = rs.uniform(0.3, 0.7, size=n)
+    else:
+        xt = rs.randint(-1, 2, size=n).astype(float)
+    with quiet():
+        b = np.asarray(M(xt), dtype=float) + rs.randint(-1, 2, size=mm) / 4.0
+    BP = BayesianProblem(y, x).set_data(y=b)
+    return BP, pk, A, sig2, b
+
+
+class _Recorder:
+    """stands in for cuqi.solver.minimize / L_BFGS_B: records what it is given, returns a marker"""
+    log = []
+
+    def __init__(self, name):
+        self.name = name
+
+    def __call__(self, func, x0, gradfunc=None, **kw):
+        rec = {"solver": self.name, "func": func, "x0": np.array(x0, dtype=float), "gradfunc": gradfunc, "kw": kw}
+        _Recorder.log.append(rec)
+        marker = np.array(x0, dtype=float) * 0 + 0.625 + np.arange(len(x0)) / 8.0
+
+        class S:
+            def solve(self_inner):
+                return marker.copy(), {"success": True}
+        rec["marker"] = marker
+        return S()
+
+
 def run_routes(ctx, cuqi, rs, thorough):
-    pass
+    from cuqi.problem import BayesianProblem
+    import cuqi.solver as solver_mod
+    nprob = 400 if thorough else 48
+    specs = []
+    for k in range(nprob):
+        pk = PRIORS[k % len(PRIORS)]
+        mk = "linear" if (k // len(PRIORS)) % 3 != 2 else "nonlinear"
+        n = int(rs.randint(2, 5)); m = int(rs.randint(2, 6))
+        maxdim = [2000, 2000, 3, 2][rs.randint(0, 4)]
+        specs.append((pk, mk, m, n, maxdim))
+    sample_methods = ["_sampleMapCholesky", "_sampleLinearRTO", "_sampleUGLA", "_sampleNUTS", "_samplepCN",
+                      "_sampleRegularizedLinearRTO", "_sampleCWMH", "_sampleGibbs"]
+    saved = {nm: getattr(BayesianProblem, nm) for nm in sample_methods}
+    saved_solvers = (solver_mod.minimize, solver_mod.L_BFGS_B)
+    saved_max = cuqi.config.MAX_DIM_INV
+    lines, recs = [], []
+    try:
+        for (pk, mk, m, n, maxdim) in specs:
+            desc = {"prior": pk, "model": mk, "m": m, "n": n, "MAX_DIM_INV": maxdim}
+            try:
+                with quiet():
+                    BP, pkind, A, sig2, b = make_problem(cuqi, pk, mk, m, n, rs)
+            except Exception as e:
+                ctx.note(f"route problem not constructible {desc}: {exc_name(e)}")
+                continue
+            cuqi.config.MAX_DIM_INV = maxdim
+            # leaf inputs of the decision
+            with quiet():
+                try:
+                    BP.posterior.gradient(np.zeros(BP.posterior.dim)); hasgrad = True
+                except (NotImplementedError, AttributeError):
+                    hasgrad = False
+                except Exception:
+                    hasgrad = True     # any other exception propagates in the code; treated below
+            hassq = hasattr(BP.prior, "sqrtprecTimesMean") and hasattr(BP.likelihood.distribution, "sqrtprec")
+            mm = BP.model.range_dim
+            lines.append(f"route {pkind} gaussian {mk} {n} {mm} {int(hasgrad)} {int(hassq)} {maxdim}")
+            # sampler selection
+            called = []
+            for nm in sample_methods:
+                setattr(BayesianProblem, nm, (lambda nm: (lambda self, *a, **k: called.append(nm)))(nm))
+            try:
+                with quiet():
+                    BP.sample_posterior(5)
+                samp = called[0] if called else "none"
+            except NotImplementedError:
+                samp = "NotImplementedError"
+            except Exception as e:
+                samp = "raises:" + exc_name(e)
+            for nm in sample_methods:
+                setattr(BayesianProblem, nm, saved[nm])
+            # solver selection and what the solver is given
+            _Recorder.log = []
+            solver_mod.minimize = _Recorder("minimize"); solver_mod.L_BFGS_B = _Recorder("lbfgsb")
+            res = {}
+            for which in ("MAP", "ML"):
+                n0 = len(_Recorder.log)
+                try:
+                    with quiet():
+                        out = getattr(BP, which)(disp=False)
+                    rec = _Recorder.log[n0] if len(_Recorder.log) > n0 else None
+                    res[which] = ("direct" if rec is None else rec["solver"], rec, np.asarray(out, dtype=float))
+                except Exception as e:
+                    res[which] = ("raises:" + exc_name(e), None, None)
+            solver_mod.minimize, solver_mod.L_BFGS_B = saved_solvers
+            cuqi.config.MAX_DIM_INV = saved_max
+            recs.append((desc, BP, samp, res, pk))
+    finally:
+        for nm in sample_methods:
+            setattr(BayesianProblem, nm, saved[nm])
+        solver_mod.minimize, solver_mod.L_BFGS_B = saved_solvers
+        cuqi.config.MAX_DIM_INV = saved_max
+    outs = ctx.lean.drive(lines)
+    hist = {}
+    for (desc, BP, samp, res, pk), out in zip(recs, outs):
+        ctx.case("route-" + desc["prior"] + "-" + desc["model"], desc)
+        f = dict(t.split("=") for t in out.split(" "))
+        key = f"route:{desc['prior']}:{desc['model']}:{'small' if desc['MAX_DIM_INV'] < 10 else 'default'}-maxdim"
+        hist[f"{f['map']}/{f['sample']}"] = hist.get(f"{f['map']}/{f['sample']}", 0) + 1
+        # only the *direct* decisions belong to this property (which MCMC sampler is picked otherwise does not)
+        impl_direct_sample = (samp == "_sampleMapCholesky")
+        if impl_direct_sample != (f["sample"] == "mapCholesky"):
+            ctx.disagree(key + ":sample", desc, f["sample"], samp, "direct-sampling decision differs")
+        for which, mf in (("MAP", f["map"]), ("ML", f["ml"])):
+            got = res[which][0]
+            if got.startswith("raises:"):
+                # a failing call is allowed by the property (e.g. the closed form refuses non-cov Gaussians; the gradient
+                # probe of a scalar-prec Gaussian raises ValueError, which is C03's subject): recorded, not judged
+                hist["raises:" + which + ":" + got[7:]] = hist.get("raises:" + which + ":" + got[7:], 0) + 1
+                continue
+            if got != mf:
+                ctx.disagree(key + ":" + which, desc, mf, got, "solver / closed-form decision differs")
+                continue
+            rec, out_x = res[which][1], res[which][2]
+            if rec is None:
+                continue
+            # maximize_sign: func = -logd, gradfunc = -gradient (or None), start = ones, result passed through
+            dens = BP.posterior if which == "MAP" else BP.likelihood
+            kk = f"maxpoint:{which}:{desc['prior']}:{desc['model']}"
+            ctx.case("maxpoint-" + which, desc)
+            bad = None
+            if desc["prior"] in ("lognormal", "beta"):
+                pts = [rs.uniform(0.2, 0.8, size=len(rec["x0"])) for _ in range(3)]
+            else:
+                pts = [rs.randint(-3, 4, size=len(rec["x0"])) / 2.0 for _ in range(3)]
+            with quiet():
+                for xx in pts:
+                    a = float(np.asarray(rec["func"](xx)).ravel()[0]); bb = -float(np.asarray(dens.logd(xx)).ravel()[0])
+                    if not close(a, bb, 1e-12):
+                        bad = (f"func(x) = -logd(x) = {bb}", a, "objective handed to the solver is not the negative log-density")
+                    try:
+                        gd = -np.asarray(dens.gradient(xx), dtype=float).ravel()
+                        has = True
+                    except (NotImplementedError, AttributeError):
+                        has = False
+                    if has and rec["gradfunc"] is not None:
+                        ga = np.asarray(rec["gradfunc"](xx), dtype=float).ravel()
+                        if not vclose(ga, gd, 1e-12):
+                            bad = ("gradfunc(x) = -gradient(x) " + str(gd.tolist()), ga.tolist(), "gradient handed to the solver is not the negative gradient")
+            if not np.array_equal(out_x.ravel(), rec["marker"].ravel()):
+                bad = ("the solver's point " + str(rec["marker"].tolist()), out_x.tolist(), f"{which} does not return the point the solver returned")
+            if not np.array_equal(rec["x0"], np.ones(len(rec["x0"]))):
+                ctx.note(f"start point is not the ones vector at {kk}")
+            if bad:
+                ctx.disagree(kk, desc, bad[0], bad[1], bad[2])
+                ctx.fail(kk, desc, bad[0], bad[1], bad[2])
+    ctx.extra_cov["route_histogram"] = hist
 
 
+# ----------------------------------------------------------------------------------------------- optimisation route: oracle only
 def run_opt(ctx, cuqi, rs, thorough):
-    pass
+    nprob = 300 if thorough else 36
+    kinds = ["gmrf", "cmrf", "cauchy", "lognormal", "gaussian-nl", "gaussian-ml", "gmrf", "wangcubic", "gaussian-ml"]
+    for k in range(nprob):
+        kind = kinds[k % len(kinds)]
+        n = int(rs.randint(1, 5)) if kind != "cmrf" else int(rs.randint(2, 5)); m = n + int(rs.randint(0, 3))
+        desc = {"problem": kind, "m": m, "n": n, "k": k}
+        try:
+            with quiet():
+                if kind == "wangcubic":
+                    BP = cuqi.testproblem.WangCubic(); A = None
+                elif kind == "gaussian-nl":
+                    BP, _, A, sig2, b = make_problem(cuqi, "gaussian", "nonlinear", m, n, rs)
+                elif kind == "gaussian-ml":
+                    BP, _, A, sig2, b = make_problem(cuqi, "gaussian", "linear", m, n, rs)
+                else:
+                    BP, _, A, sig2, b = make_problem(cuqi, kind, "linear", m, n, rs)
+        except Exception as e:
+            ctx.note(f"opt problem not constructible {desc}: {exc_name(e)}")
+            continue
+        for which in (("ML",) if kind == "gaussian-ml" else ("MAP", "ML")):
+            key = f"{which}:opt:{kind}"
+            ctx.case("opt-" + which + "-" + kind, desc)
+            dens = BP.posterior if which == "MAP" else BP.likelihood
+            try:
+                with quiet():
+                    xm = getattr(BP, which)(disp=False)
+                x = np.asarray(xm, dtype=float).ravel()
+            except Exception as e:
+                ctx.note(f"{key} raises {exc_name(e)}: {str(e)[:60]}")   # a failing call is allowed by the property
+                continue
+            ref = None
+            if A is not None and kind in ("gmrf", "gaussian-ml"):
+                We = np.eye(A.shape[0]) / sig2
+                if which == "ML":
+                    if np.linalg.matrix_rank(A) == A.shape[1]:
+                        ref = np.linalg.solve(A.T @ We @ A, A.T @ We @ b)
+                else:
+                    R = dense(BP.prior.sqrtprec); Wx = R.T @ R
+                    ref = np.linalg.solve(A.T @ We @ A + Wx, A.T @ We @ b + Wx @ np.asarray(BP.prior.mean, dtype=float))
+            oracle_point(ctx, key, {**desc, "returned": x.tolist(), "info": str(getattr(xm, "info", {}).get("success"))},
+                         dens, x, ref, rs, tol_point=2e-4, tol_logd=1e-7, grad_tol=1e-5, what=which)
